@@ -38,7 +38,7 @@ C = {
          "Numba's scheduler and memory model are not modelled (theorem is about the effect summary extracted from source)", "Coq theorems (schedule/history independence) + effect summary regenerated from source + sweeps"),
  "C15": ("The residual expression with the code's index/conjugate pairing is proved, for any number of inputs q and any number of accumulated segments, equal to sum_k |Y_k - sum_i conj(H_i) X_ik|^2 for any H (real, >= 0 whatever the solver returns); at any solution of the code's system T H = S it equals S00 - sum_k|model_k|^2 and lies in [0, S00]; a solution minimises the residual, so all solutions (analytic/numeric, solve/pinv) give the same residual and invertible re-mixing leaves it unchanged; exact combinations give 0; input order irrelevant; the one-input residual equals S00 - |S10|^2/T11. Source pairing checked by AST; solvers exercised for q = 1..3.", "7/C15",
          "theorems at exact real arithmetic; sympy/np.linalg solve are oracles (that they return a solution of T H = S, and the effect of rounding / ill-conditioning, are checked numerically on the implementation)", T_HAND),
- "C16": ("Taps model mirrors lagrange_taps operation for operation (bit-exact correspondence); integer shift = unit tap proved for every order; every tap = textbook Lagrange weight proved for all odd orders 1..111 and every real fraction (integer-polynomial identities decided per order, lifted to R); interpolation theory for any distinct nodes (roots theorem, cardinal basis) gives: the constant-shift path reproduces every polynomial of degree <= order at interior samples for any real shift, taps sum to one, integer shift = displacement with ends held, zero shift = identity (all theorems at exact arithmetic); variable-shift path and the DataFrame wrapper by the oracle.", "7/C16",
+ "C16": ("Taps model mirrors lagrange_taps operation for operation (bit-exact correspondence); integer shift = unit tap proved for every order; every tap = textbook Lagrange weight proved for all odd orders 1..111 and every real fraction (integer-polynomial identities decided per order, lifted to R); interpolation theory for any distinct nodes (roots theorem, cardinal basis) gives: the constant-shift path reproduces every polynomial of degree <= order at interior samples for any real shift, taps sum to one, integer shift = displacement with ends held, zero shift = identity; the time-varying path is modelled too (timeshift_var, correspondence 1e-11): it agrees with the constant path on interior stencils and reproduces polynomials; a shift beyond the start holds the first value (all theorems at exact arithmetic); record dtypes and the DataFrame wrapper by the oracle.", "7/C16",
          "np.correlate / einsum summation order and the edge padding are compared on the implementation (1e-11), not proved", T_HAND),
  "C17": ("Cascade and generator model for any carrier (bit-exact at binary64): filter state carried across blocks, any sequence of block requests = one request (samples and state); each DF2T section proved equal to the direct-form difference equation y[n]=a0 x[n]+a1 x[n-1]-b1 y[n-1] with the carried state its memory (exact arithmetic); tied by bit-exact correspondence with alpha/pink/red generators on the recorded white stream.", "7/C17",
          "numpy Generator.normal and scipy lfilter are oracles whose contracts are validated each run", T_HAND),
